@@ -33,12 +33,6 @@ impl MutSpec for P {
         zverif::util::catch(|| (self.seeds)(tier)).unwrap_or_default()
     }
     fn parse(&self, input: &[u8], arg: usize) -> bool {
-        if ISOLATE_FATAL_CASES && parsers::dies_on_some_inputs(self.name) {
-            if let Some(how) = prescreen(self.parse, input, arg) {
-                // see `prescreen`: reported through the engine's panic channel, the class names the real event
-                panic!("parser process died: {how}");
-            }
-        }
         (self.parse)(input, arg)
     }
     fn takes_len_arg(&self) -> bool {
@@ -46,55 +40,6 @@ impl MutSpec for P {
     }
     fn small_strings(&self) -> bool {
         self.small
-    }
-}
-
-/// WORKAROUND for an E5 engine defect (mutate.rs checkpoints a child's report only every 512 executions;
-/// when a case kills the child, everything the child found since the last checkpoint - executions, panics,
-/// alloc_blowups - is lost, and with 16 shards that is nearly everything for parsers that have many fatal
-/// inputs).  For the parsers known to have fatal inputs every case first runs in a throw-away grandchild.
-/// If the grandchild is killed by a signal (allocation-failure abort, SIGSEGV, stack overflow ...) or makes
-/// no progress for 10 s, the case is NOT run in the engine's child; it is reported as
-/// `clause=panic, class="src/bin/c15/main.rs: parser process died: signal_N"` (resp. `timeout_Ns`): the same
-/// event the engine calls `crash/signal_N` / `timeout/timeout_10s`, observed one process further down.
-/// Otherwise the case runs in-process as usual (panics and allocation sizes are judged by the engine).
-/// Parsers outside the list still get the engine's own crash detection.
-pub const ISOLATE_FATAL_CASES: bool = true;
-
-fn prescreen(parse: fn(&[u8], usize) -> bool, input: &[u8], arg: usize) -> Option<String> {
-    use std::time::{Duration, Instant};
-    unsafe {
-        let pid = libc::fork();
-        if pid < 0 {
-            return None;
-        }
-        if pid == 0 {
-            let _ = std::panic::catch_unwind(|| parse(input, arg));
-            libc::_exit(0);
-        }
-        let t0 = Instant::now();
-        let mut status: libc::c_int = 0;
-        loop {
-            if libc::waitpid(pid, &mut status, libc::WNOHANG) == pid {
-                break;
-            }
-            let el = t0.elapsed();
-            if el > Duration::from_secs(8) {
-                // (below the supervisor's 10 s watchdog, which would otherwise kill this process and orphan the grandchild)
-                libc::kill(pid, libc::SIGKILL);
-                libc::waitpid(pid, &mut status, 0);
-                return Some("timeout_8s".to_string());
-            }
-            if el > Duration::from_micros(400) {
-                std::thread::sleep(Duration::from_micros(if el > Duration::from_millis(20) { 2000 } else { 100 }));
-            } else {
-                std::hint::spin_loop();
-            }
-        }
-        if libc::WIFSIGNALED(status) {
-            return Some(format!("signal_{}", libc::WTERMSIG(status)));
-        }
-        None
     }
 }
 
@@ -141,6 +86,9 @@ fn main() {
             for s in &seeds {
                 let ok = zverif::util::catch(|| (p.parse)(&s.bytes, s.expected_len));
                 eprintln!("    {:<50} len={:<5} n={:<4} parse(seed)={:?}", s.label, s.bytes.len(), s.expected_len, ok.map_err(|f| f.class));
+                if std::env::var("ZV_C15_SEEDS").map(|v| v == "hex").unwrap_or(false) {
+                    eprintln!("    HEX\t{}\t{}\t{}\t{}", p.name, s.label, s.expected_len, zverif::util::hex(&s.bytes));
+                }
             }
         }
         if let Ok(st) = std::fs::read_to_string("/proc/self/status") {
